@@ -23,6 +23,8 @@ type UniImpl struct {
 	LoadHistoryLookups func(prog *Program, initial []string, steps [][]string, lookups [][][3]string) (snap *USnap, objectsStable bool, inputs []string, err error)
 	// RequestTwice asks the same loader for package pkg twice, ignoring the first answer, and returns both errors
 	RequestTwice func(prog *Program, pkg string) (first, second error)
+	// RequestSeq asks one loader for the packages one after the other and returns the error of each request
+	RequestSeq func(prog *Program, pkgs []string) []error
 }
 
 func progLines(variant string, prog *Program, facts []string, requested []string) []string {
@@ -422,6 +424,19 @@ func LoadingProperty(impl UniImpl) Property {
 				return outs, fails
 			}
 		}
+		for _, l := range lines {
+			if f := Fields(l); f[1] == "retryseq" && impl.RequestSeq != nil {
+				// requests on one loader, one after the other: those marked "err" must fail whatever was asked before
+				pkgs, want := UnhexList(f[2]), strings.Split(f[3], ",")
+				errs := impl.RequestSeq(prog, pkgs)
+				for i, w := range want {
+					if w == "err" && (i >= len(errs) || errs[i] == nil) {
+						fails = append(fails, Failure{"bad-package-no-error-in-sequence", fmt.Sprintf("requests %v on one loader: request %d (%s: missing, broken, or depending on a broken package) returned no error", pkgs, i+1, pkgs[i])})
+					}
+				}
+				return outs, fails
+			}
+		}
 		if expectErr {
 			// a requested package that is missing or does not parse must yield an error
 			_, _, _, err := impl.LoadHistory(prog, initial, steps)
@@ -610,6 +625,26 @@ func LoadingProperty(impl UniImpl) Property {
 					}
 					_ = badReq
 					c.Case(ls2, Meta{Nontrivial: true, NoModel: true, Features: []string{"bad-requested-package", "bad:" + feat}})
+					if i%8 == 4 {
+						// error paths with a history, on one loader: the importer of a package that does not parse, asked
+						// for twice; a package with an import that does not exist, then that import itself
+						bp := &ProgPkg{Path: prog.Module + "/zbroken", Name: "zbroken", File: "types.go", Source: "package zbroken\n\ntype T struct{}\n\nfunc (\n\ntype Lost int\n"}
+						ip := &ProgPkg{Path: prog.Module + "/zimp", Name: "zimp", File: "types.go", Imports: []string{bp.Path}, Source: "package zimp\n\nimport zbroken \"" + prog.Module + "/zbroken\"\n\ntype U struct{ F zbroken.T }\n"}
+						ap := &ProgPkg{Path: prog.Module + "/zapp", Name: "zapp", File: "types.go", Source: "package zapp\n\nimport gone \"" + prog.Module + "/zgone\"\n\ntype U struct{ F gone.T }\n"}
+						mk := func(pkgs []*ProgPkg, seq []string, want string, feat string) {
+							ls4 := []string{Line("uni", "reset", variant)}
+							for _, p := range pkgs {
+								ls4 = append(ls4, Line("uni", "src", Hex(p.Path), Hex(p.Name), Hex(p.File), HexList(p.Imports), Hex(p.Source)))
+							}
+							ls4 = append(ls4, Line("uni", "expecterror"), Line("uni", "retryseq", HexList(seq), want))
+							c.Case(ls4, Meta{Nontrivial: true, NoModel: true, Features: []string{"bad-requested-package", "bad:" + feat}})
+						}
+						if impl.V2 {
+							mk([]*ProgPkg{bp, ip}, []string{ip.Path, ip.Path}, "err,err", "importer-of-broken-package-requested-twice")
+						}
+						mk([]*ProgPkg{ap}, []string{ap.Path, prog.Module + "/zgone"}, "?,err", "missing-import-then-requested")
+						mk([]*ProgPkg{ap}, []string{prog.Module + "/zgone", ap.Path, prog.Module + "/zgone"}, "err,?,err", "missing-import-requested-before-and-after")
+					}
 					if i%8 == 0 {
 						// a package of two files, the second of which does not parse, requested twice
 						bp := &ProgPkg{Path: prog.Module + "/zhalf", Name: "zhalf", File: "a.go", Source: "package zhalf\n\ntype A int\n",
